@@ -332,20 +332,51 @@ func runC12(c *Ctx) {
 			n, ok := 0, true
 			why := ""
 
-			for _, g := range append([]*ssa.Function{del}, AllClosures(del)...) {
-				for _, in := range Find(g, StoreToField("Event", "Bookmark")) {
-					n++
+			// the bookmark is encodeBookmark(pos − 1), computed either where the event is built in the delivery
+			// goroutine, or once in WatchAll itself after pos has its final value (no store to pos follows)
+			posStore := func(in ssa.Instruction) bool {
+				st, isSt := in.(*ssa.Store)
 
-					call, _ := CallOf(in.(*ssa.Store).Val)
-					if call == nil || p.CalleeName(call) != pkgInmem+".encodeBookmark" || p.LinOf(CallArgs(call)[0], al).String() != "+1*P-1" {
-						ok = false
+				return isSt && isWatcherPosAddr(st.Addr)
+			}
 
-						if call != nil {
-							why += FuncName(g) + ": " + p.LinOf(CallArgs(call)[0], al).String() + "; "
-						} else {
-							why += FuncName(g) + ": " + p.Desc(in.(*ssa.Store).Val) + "; "
+			check := func(g *ssa.Function, v ssa.Value) {
+				n++
+
+				call, _ := CallOf(v)
+				if call == nil {
+					if ld, isLoad := Fwd(v).(*ssa.UnOp); isLoad {
+						if sv := p.loadedSingleValue(ld); sv != nil {
+							call, _ = CallOf(sv)
 						}
 					}
+				}
+
+				if call == nil || p.CalleeName(call) != pkgInmem+".encodeBookmark" || p.LinOf(CallArgs(call)[0], al).String() != "+1*P-1" {
+					ok = false
+
+					if call != nil {
+						why += FuncName(g) + ": " + p.LinOf(CallArgs(call)[0], al).String() + "; "
+					} else {
+						why += FuncName(g) + ": " + p.Desc(v) + "; "
+					}
+
+					return
+				}
+
+				// computed outside the delivery goroutine: pos must already be final
+				if cf := call.Parent(); cf == f {
+					this := func(in ssa.Instruction) bool { return in == call.(ssa.Instruction) }
+					if found, _ := p.Reach(After(f, this), posStore, CutSpec{}); found {
+						ok = false
+						why += "the initial bookmark is computed in " + FuncName(f) + " before pos is adjusted for tail / start bookmark; "
+					}
+				}
+			}
+
+			for _, g := range append([]*ssa.Function{f, del}, AllClosures(del)...) {
+				for _, in := range Find(g, StoreToField("Event", "Bookmark")) {
+					check(g, in.(*ssa.Store).Val)
 				}
 			}
 
@@ -354,7 +385,7 @@ func runC12(c *Ctx) {
 	}
 
 	// ---------- R12.6 (shared with C13 R13.1)
-	c.Rule("R12.6", "E3", "a watch resumed from a bookmark by the gRPC client is the same watch: every field of the initial request (ID and label queries, aggregation, API version) is carried over, only bootstrap/tail/bookmark differ — interrupted + resumed equals uninterrupted", 6)
+	c.Rule("R12.6", "E3", "a watch resumed from a bookmark by the gRPC client is the same watch: every field of the initial request (ID and label queries, aggregation, API version) is carried over, only bootstrap/tail/bookmark differ — interrupted + resumed equals uninterrupted", 4)
 	resumeRequestRule(c, "R12.6")
 
 	// ---------- R12.7 the tail walk ends by its own guard only
